@@ -584,6 +584,12 @@ def run(repo, tier, seed, scratch):
     return [r for r in results]
 
 
+def run_div(repo, tier, seed, scratch):
+    results = []
+    check_div(Path(repo) / "src/biguint/division.rs", tier, results, tier == "thorough")
+    return results
+
+
 def run_addsub(repo, tier, seed, scratch):
     results = []
     repo = Path(repo)
